@@ -1,7 +1,7 @@
 //! C02 (compiled automaton ≡ pattern languages, all strings) and C03 (minimization preserves the
 //! recognised language, all strings) through the E1 product exploration.
 
-use crate::e1::{check_cfg, E1Outcome, ProductStats};
+use crate::e1::{check_cfg, check_cfg_with, E1Outcome, ProductStats};
 use bridge::{CPat, Cfg};
 use refsem::evidence::{Run, Samples, Tier, ViolAcc, Violation};
 use refsem::families::{g_upto, token_type_variants};
@@ -150,6 +150,34 @@ pub fn scale_family() -> Vec<(String, Cfg)> {
     let alts: Vec<String> = (0..300).map(|i| format!("k{:03}", i)).collect();
     v.push(("alt300".to_string(), Cfg::single(vec![CPat::new(&alts.join("|"), 0), CPat::new("k\\d*", 1)])));
     v.push(("opt-chain".to_string(), Cfg::single(vec![CPat::new("(a?){30}b", 0), CPat::new("a{0,40}", 1)])));
+    // more than 256 / 512 patterns, classes, states, groups, transitions of one state
+    let chars: Vec<char> = (0x4e00u32..0x4e00 + 700).filter_map(char::from_u32).collect();
+    v.push(("300 one-char patterns".to_string(), Cfg::single((0..300).map(|i| CPat::new(&chars[i].to_string(), i)).collect())));
+    v.push(("300 two-char patterns sharing the second char".to_string(), Cfg::single((0..300).map(|i| CPat::new(&format!("{}z", chars[i]), i)).collect())));
+    v.push(("600 two-char patterns, token types reversed".to_string(), Cfg::single((0..600).map(|i| CPat::new(&format!("{}[yz]", chars[i]), 599 - i)).collect())));
+    v.push(("300 patterns, one token type".to_string(), Cfg::single((0..300).map(|i| CPat::new(&format!("{}z", chars[i]), 9)).collect())));
+    v.push(("pz, 255 fillers, qz".to_string(), Cfg::single(std::iter::once(CPat::new("pz", 0)).chain((0..255).map(|i| CPat::new(&chars[i].to_string(), i + 1))).chain(std::iter::once(CPat::new("qz", 256))).collect())));
+    v.push(("pz, 511 fillers, qz".to_string(), Cfg::single(std::iter::once(CPat::new("pz", 0)).chain((0..511).map(|i| CPat::new(&chars[i].to_string(), i + 1))).chain(std::iter::once(CPat::new("qz", 512))).collect())));
+    // 100 keywords of 6 letters with shared prefixes (about 600 states)
+    let mut kws = vec![];
+    for k in 0..100usize {
+        let mut s = String::new();
+        let mut x = k;
+        for _ in 0..6 {
+            s.push(letters[x % 3]);
+            x /= 3;
+        }
+        s.push(letters[3 + k % 5]);
+        kws.push(s);
+    }
+    kws.sort();
+    kws.dedup();
+    v.push(("keywords100".to_string(), Cfg::single(kws.iter().enumerate().map(|(i, k)| CPat::new(k, i + 256)).collect())));
+    // 300 modes
+    v.push((
+        "300 modes".to_string(),
+        Cfg { modes: (0..300).map(|m| bridge::CMode { name: format!("M{m}"), pats: vec![CPat::new(&format!("{}a", chars[m]), m), CPat::new("b+", 1000 + m)], transitions: vec![(m, (m + 1) % 300)] }).collect() },
+    ));
     v
 }
 
@@ -189,7 +217,7 @@ pub fn run(prop: &'static str, tier: Tier) -> ! {
         || Acc { samples: Samples::new(2), ..Default::default() },
         |acc, i| {
             let pats = fam.get(i);
-            let all_variants = pats.len() > 1 && i < fam.g1.len() + 70 * 70;
+            let all_variants = (pats.len() == 2 && i < fam.g1.len() + 77 * 77) || (pats.len() == 3 && fam.g3.len() <= 7) || pats.len() == 1;
             for tts in token_type_variants(pats.len(), all_variants) {
                 let cfg = cfg_of(&pats, &tts);
                 let o = check_cfg(&cfg, &tables, do02, do03, do02, true);
@@ -241,6 +269,70 @@ pub fn run(prop: &'static str, tier: Tier) -> ! {
         merge(&mut total, a);
     }
     families.push(json!({"family": "scale (hundreds of states, many classes)", "configurations": sf.iter().map(|s| s.0.clone()).collect::<Vec<_>>()}));
+
+    // 3a. repetition shapes
+    {
+        let shapes = refsem::families::repetition_shapes();
+        let accs = par_for(shapes.len(), 8, || Acc { samples: Samples::new(1), ..Default::default() }, |acc, i| {
+            let cfg = Cfg::single(vec![CPat::new(&shapes[i], 0), CPat::new("[abxy]", 1)]);
+            let o = check_cfg(&cfg, &tables, do02, do03, do02, true);
+            absorb(acc, prop, &cfg, "repetition-shapes", o);
+        });
+        for a in accs {
+            merge(&mut total, a);
+        }
+        families.push(json!({"family": "repetition shapes: (inner)rep for 5 inner patterns x {*,+,?,{m},{m,},{m,n} | 0<=m<=n<=3} x 7 contexts", "configurations": shapes.len(), "exhaustive": true}));
+    }
+
+    // 3b. class pairs: every ordered pair of near-identical class atoms in one scanner
+    {
+        let menu = refsem::families::class_menu();
+        let all = Cfg::single(menu.iter().enumerate().map(|(i, c)| CPat::new(c, i)).collect());
+        let mut mkeys = all.atom_keys();
+        mkeys.sort();
+        if let Err(e) = bridge::tabulate_atoms(&mkeys, &mut tables) {
+            refsem::evidence::machinery(&format!("cannot tabulate atoms of the class menu: {e}"));
+        }
+        // one partition for the whole menu (reference denotations of every atom + implementation
+        // predicates of the all-menu scanner); per scanner the predicates are re-evaluated on the
+        // representatives
+        let spec_all = all.to_spec().expect("menu parses");
+        let regs: Vec<&refsem::sem::Regex> = spec_all[0].patterns.iter().map(|p| &p.regex).collect();
+        let blocks = match bridge::catch(|| all.build_uncached()) {
+            Ok(Ok(sc)) => {
+                let d = sc.verif_dump();
+                Some(crate::e1::blocks_for(&sc, &d, &regs, &tables, false))
+            }
+            _ => None,
+        };
+        let mut cfgs = vec![];
+        for x in &menu {
+            for y in &menu {
+                cfgs.push(Cfg::single(vec![CPat::new(&format!("({x})+"), 0), CPat::new(&format!("({y})+"), 1), CPat::new(&format!("({x})({y})"), 2)]));
+                cfgs.push(Cfg {
+                    modes: vec![
+                        bridge::CMode { name: "A".into(), pats: vec![CPat::new(x, 0)], transitions: vec![(0, 1)] },
+                        bridge::CMode { name: "B".into(), pats: vec![CPat::new(&format!("({y})+"), 0).with_la(true, x), CPat::new(y, 1).with_la(false, y)], transitions: vec![(0, 0)] },
+                    ],
+                });
+            }
+        }
+        match blocks {
+            None => {
+                total.build_errors += 1;
+            }
+            Some(blocks) => {
+                let accs = par_for(cfgs.len(), 8, || Acc { samples: Samples::new(1), ..Default::default() }, |acc, i| {
+                    let o = check_cfg_with(&cfgs[i], &tables, do02, do03, do02, false, Some(blocks.clone()));
+                    absorb(acc, prop, &cfgs[i], "class-pairs", o);
+                });
+                for a in accs {
+                    merge(&mut total, a);
+                }
+            }
+        }
+        families.push(json!({"family": "class pairs: every ordered pair of a menu of near-identical one-character classes (polarity, order, escaping, nesting, named classes) in one mode and spread over two modes and lookaheads", "menu": menu, "configurations": cfgs.len(), "exhaustive": true}));
+    }
 
     // 4. corpora
     let accs = par_for(cor.len(), 1, || Acc { samples: Samples::new(2), ..Default::default() }, |acc, i| {
